@@ -226,6 +226,34 @@ func runC16(c *Ctx, r *Run) {
 	// ---- SPEC-NEG
 	if sign != nil {
 		checkEvenYNegations(c, r, "SPEC-NEG", sign, 2)
+		// the nonce mask is bytes(d) of the ADJUSTED key: the first hashed field of the nonce hash derives from
+		// MarshalBinary of the scalar object that was conditionally negated, not from the raw key bytes
+		var keyScalar ssa.Value // the scalar the key bytes were decoded into: receiver of the first UnmarshalBinary fed by recv
+		for _, call := range callsNamed(sign, "UnmarshalBinary") {
+			if a := argsOf(call); len(a) == 1 && containsField(paramFields(sign, a[0]), "recv") && keyScalar == nil {
+				keyScalar = recvOf(call)
+			}
+		}
+		maskOK := false
+		for _, call := range taggedHashCalls(c, sign) {
+			if t, ok := constString(call.Call.Args[0]); !ok || t != "BIP0340/nonce" {
+				continue
+			}
+			el := variadicElems(call.Call.Args[1])
+			if len(el) == 0 || keyScalar == nil {
+				continue
+			}
+			maskOK = dependsOn(el[0], func(v ssa.Value) bool {
+				mc, ok := v.(*ssa.Call)
+				if !ok {
+					return false
+				}
+				o := calleeObj(mc)
+				return o != nil && o.Name() == "MarshalBinary" && sameObject(recvOf(mc), keyScalar)
+			})
+		}
+		r.Check("SPEC-NEG", c.FuncName(sign)+"|nonce mask from adjusted key", c.Pos(sign.Pos()), maskOK, "the masked key in the nonce hash is the encoding of the (possibly negated) scalar d",
+			"the first field of the nonce hash does not derive from d.MarshalBinary() of the adjusted scalar (e.g. it uses the raw key bytes): for keys whose point has odd Y the nonce, and with it the signature, differs from the BIP-340 reference although it still verifies")
 	}
 	if pub := c.LookupMethod("pkg/taproot", "SecretKey", "Public"); pub != nil {
 		r.Analysed(c.FuncName(pub))
@@ -257,7 +285,7 @@ func runC16(c *Ctx, r *Run) {
 	r.Require("OB-T", 25)
 	r.Require("SPEC-TH", 4)
 	r.Require("SPEC-TAG", 14)
-	r.Require("SPEC-NEG", 5)
+	r.Require("SPEC-NEG", 6)
 	r.Require("DEC-1", 4)
 	r.Require("ETH-1", 5)
 }
